@@ -360,7 +360,7 @@ struct World<T: MomT> {
 
 impl<T: MomT> World<T> {
     fn new(k: usize) -> Self {
-        World { slots: (0..k).map(|_| T::new()).collect(), ghost: vec![vec![]; k], addonly: vec![true; k] }
+        World { slots: (0..k).map(|i| if i % 2 == 0 { T::new() } else { T::default_() }).collect(), ghost: vec![vec![]; k], addonly: vec![true; k] }
     }
 }
 
@@ -636,7 +636,8 @@ fn apply<T: MomT>(w: &mut World<T>, op: &Op, e: &Embedding, roundtrip: bool) {
             w.addonly[d] = w.addonly[s];
         }
         Op::Fresh(s) => {
-            w.slots[s] = T::new();
+            // T::new() and Default::default() are the same empty estimator: use them alternately
+            w.slots[s] = if (s + w.ghost.iter().map(|g| g.len()).sum::<usize>()) % 2 == 0 { T::new() } else { T::default_() };
             w.ghost[s].clear();
             w.addonly[s] = true;
         }
